@@ -77,6 +77,19 @@ impl Out {
             }
         }
     }
+    /// Behaviour that the harness PINS (today's accept/reject decision of a decoder, today's error variant, a test
+    /// vector found at a known place in the source) but that the property text does not mandate. A change is
+    /// reported like a broken correspondence ("no longer shown"), never as a failing input of the property.
+    pub fn pin(&mut self, check: &str, ok: bool, detail: impl FnOnce() -> String) {
+        self.count(&format!("S.{}.evals", check));
+        if !ok {
+            let n = self.fails.entry(format!("{}#pin", check)).or_insert(0);
+            *n += 1;
+            if *n <= self.max_fail_per_check {
+                self.s.push((check.to_string(), "PIN".to_string(), detail()));
+            }
+        }
+    }
     /// A failing instance that belongs to a recorded finding class (class id first in detail)
     pub fn s_known(&mut self, check: &str, class: &str, detail: impl FnOnce() -> String) {
         self.count(&format!("S.{}.evals", check));
